@@ -291,13 +291,22 @@ impl CdnClient {
         offset: u64,
         length: u64,
     ) -> Result<Vec<u8>> {
+        // An empty range has no HTTP representation (and `offset + length - 1`
+        // would underflow); a range reaching past u64::MAX is not a range
+        if length == 0 {
+            return Ok(Vec::new());
+        }
+        let last = offset
+            .checked_add(length - 1)
+            .ok_or_else(|| ProtocolError::Other("byte range exceeds u64".to_string()))?;
+
         let url = Self::build_url(endpoint, content_type, key);
 
         let response = self
             .http_client
             .inner()
             .get(&url)
-            .header("Range", format!("bytes={}-{}", offset, offset + length - 1))
+            .header("Range", format!("bytes={offset}-{last}"))
             .send()
             .await?;
 
